@@ -3345,3 +3345,89 @@ func identOf(e ast.Expr) *ast.Ident {
 	id, _ := unparen(e).(*ast.Ident)
 	return id
 }
+
+// ---------------------------------------------------------------------------------------------
+// ROTATE-ALL (C20): RotateInternalNodes shuffles the neighbours of every node that has at least two
+// of them (the root of a rooted tree has exactly two children and no parent): the call of
+// RotateNeighbors is unguarded, or its guard holds for every node with >= 2 neighbours.
+func (c *Ctx) rotateAll(rule string) {
+	fi := c.Func("tree", "Tree", "RotateInternalNodes")
+	if fi == nil {
+		return
+	}
+	info := fi.Pkg.TypesInfo
+	for _, call := range callsIn(fi.Decl.Body, true) {
+		if !isRepoFunc(calleeOf(info, call), "tree", "Node", "RotateNeighbors") {
+			continue
+		}
+		sel, ok := unparen(call.Fun).(*ast.SelectorExpr)
+		if !ok {
+			continue
+		}
+		o := &canonOpts{subst: map[types.Object]string{}}
+		if v := identObj(info, sel.X); v != nil {
+			o.subst[v] = "$N"
+		}
+		key := "tree.Tree.RotateInternalNodes/every-node"
+		conds, okc := c.pathConds(info, fi.Decl.Body, call, true)
+		if !okc {
+			c.Undecided(rule, key, call.Pos(), "guard shape not understood")
+			return
+		}
+		var rel []cond
+		for _, cd := range conds {
+			if cd.Expr != nil && strings.Contains(c.canon(info, cd.Expr, o), "$N") {
+				rel = append(rel, cd)
+			}
+		}
+		code := c.inlineNneigh(c.inlineTip(c.condsToBexpr(info, rel, o)))
+		spec := intCmp("len($N.neigh)", token.GEQ, 2)
+		imp, wit, _, err := gfImplies(spec, code)
+		if err != nil {
+			c.Undecided(rule, key, call.Pos(), err.Error())
+			return
+		}
+		c.Check(imp, rule, key, call.Pos(), "every node with at least two neighbours is rotated", "neighbours are shuffled only under "+code.String()+": a node with two neighbours (the root of a rooted tree, whose two children are then never exchanged) is skipped: "+wit).Clause = "rotate: every order of the children has the same probability"
+		return
+	}
+	c.Undecided(rule, "tree.Tree.RotateInternalNodes/every-node", fi.Decl.Pos(), "no call of RotateNeighbors found")
+}
+
+// ---------------------------------------------------------------------------------------------
+// RESOLVE-GUARD (C07): resolveRecur groups neighbours two by two, creating one node per round,
+// exactly while the node still has more than three neighbours. A bound counted on another quantity
+// (the list of neighbours to group, which at the root also contains what would be the parent)
+// makes one round too many at an unrooted root: a degree-2 root and a duplicated split.
+func (c *Ctx) resolveGuard(rule string) {
+	fi := c.Func("tree", "Tree", "resolveRecur")
+	if fi == nil {
+		return
+	}
+	info := fi.Pkg.TypesInfo
+	cur := paramObj(info, fi.Decl, 0)
+	o := &canonOpts{subst: map[types.Object]string{cur: "$C"}}
+	key := "tree.Tree.resolveRecur/grouping-loop"
+	var loop *ast.ForStmt
+	ast.Inspect(fi.Decl.Body, func(m ast.Node) bool {
+		if fs, ok := m.(*ast.ForStmt); ok && loop == nil {
+			for _, call := range callsIn(fs.Body, false) {
+				if isRepoFunc(calleeOf(info, call), "tree", "Tree", "NewNode") {
+					loop = fs
+				}
+			}
+		}
+		return true
+	})
+	if loop == nil || loop.Cond == nil {
+		c.Undecided(rule, key, fi.Decl.Pos(), "the loop that creates the new internal nodes was not found")
+		return
+	}
+	code := c.inlineNneigh(c.toBexpr(info, loop.Cond, o))
+	spec := intCmp("len($C.neigh)", token.GTR, 3)
+	eq, wit, _, err := gfEquiv(code, spec)
+	if err != nil {
+		c.Undecided(rule, key, loop.Pos(), err.Error())
+		return
+	}
+	c.Check(eq, rule, key, loop.Pos(), "a new node is created exactly while the node has more than three neighbours", "the grouping loop runs while "+code.String()+", not while the node has more than three neighbours: the number of rounds differs at a node whose neighbour list is not 'parent + children' (the root of an unrooted tree): "+wit).Clause = "the resolved tree is binary ... only adds zero-length branches"
+}
